@@ -853,3 +853,88 @@ def plan_C12(ctx):
 
 
 CLAIMED["C12"] = plan_C12
+
+
+def plan_C14(ctx):
+    k, m = ctx.q((2, 3), (3, 3))
+
+    def build(corp):
+        rng = random.Random(ctx.seed * 389 + 14)
+        n = 0
+        bodies = []
+        for name, body in directed_c01():
+            if name in ("sw_break_after_yield", "continue_yield_post", "continue_yieldfrom_post", "tagless_switch", "yielding_switch_ends_loop", "case_ends_if"):
+                continue
+            bodies.append((body, C01_HELPERS if "H2(" in repr(body) else ""))
+        for name, body in directed_c05():
+            bodies.append((body, gen.C05_HELPERS))
+        for body in gen.sampled(rng, ctx.q(60, 300), 10):
+            bodies.append((body, ""))
+        smp = gen.YFSampler(rng)
+        tries = 0
+        want = len(bodies) + ctx.q(30, 150)
+        while len(bodies) < want and tries < 20000:
+            tries += 1
+            body = smp.body([rng.randint(3, 8)], gen.Ctr(), [], False, False, 0, [])
+            if "yieldfrom" in repr(body):
+                bodies.append((body, gen.C05_HELPERS))
+        for body, helpers in bodies:
+            p = gen.Program("i%04d" % n, body, helpers=helpers, named_result=(n % 2 == 0), family="il")
+            if p.tags & {"break-in-yielding-switch-after-yield", "continue+yielding-post"}:
+                continue
+            makers = ["%s(a, b, n, g1, g2, g3)" % p.name, "%s(a, b, n, g1, g2, g3)" % p.name, "%s(b, a, n, !g1, g2, g3)" % p.name][:k]
+            if helpers == gen.C05_HELPERS and k >= 2:
+                makers[1] = "R1(n+1, b)"  # a recursive delegator as the second iterator
+            p.helpers = (helpers + "\n" if helpers else "") + gen.il_driver(p.name, k, m, makers)
+            n += 1
+            corp.add(p)
+        return {"programs": n, "iterators_k": k, "steps_each_m": m, "interleavings_per_program": "all schedules giving each iterator exactly m steps (k=2,m=3: 20; k=3,m=3: 1680)"}
+
+    extra = {
+        "bounds": {"k": k, "m": m, "loop_bound_n": "[-1,2]",
+                   "outside": "real goroutine scheduling and the race detector: goroutines are not modelled by the engine; what is decided instead is footprint non-interference (no heap cell or package-level variable written while one iterator is advanced is read or written while another is advanced), which implies schedule independence and data-race freedom for the explored programs"},
+        "explanation": "per program a driver (compiled with it) drains k iterators alone, then advances fresh instances under every interleaving (forked by the executor); generator-side effects are logged to the log of the iterator being advanced; the solver decides per-iterator log equality between solo and interleaved runs for all inputs; the engine tags heap accesses with the active iterator and asserts disjoint footprints",
+    }
+
+    # the interleaving drivers live in the generated package and are run as single-world harnesses
+    corp = corpus.Corpus(ctx, "c14")
+    corp.driver_bin = runner.build_driver(ctx)
+    counts = build(corp)
+    corp.write(4, 0, -1, 2)
+    corp.compile()
+    corp.quarantine_unbuildable(("out",))
+    hargs = []
+    for d in corp.batches:
+        if any(w == d for w in corp.where.values()):
+            hargs += ["-harness", "verifws/out/%s" % d]
+    if not hargs:
+        raise CheckError("no corpus package survived compilation")
+    args = engine_common(ctx)
+    args[args.index("-maxpaths") + 1] = "200000"
+    res = runner.run_engine(ctx, hargs + ["-drivers", "^DriveIL_"] + args)
+    new, known, replayed, mism, details = 0, [], 0, 0, []
+    for d in res["drivers"]:
+        if d["status"] != "violated":
+            continue
+        pkg_rel = "out/" + d["name"].rsplit(".", 1)[0].split("/")[-1]
+        fp = [f for f in d["failures"] if f["kind"] == "footprint"]
+        other = [f for f in d["failures"] if f["kind"] != "footprint"]
+        if other:
+            a, b, c, e, f = process_harness(ctx, {"drivers": [dict(d, failures=other)]}, pkg_rel, max_replay_per_driver=1)
+            new += a; known += b; replayed += c; mism += e; details += f
+        elif fp:
+            # footprint conflicts cannot be replayed natively (they are an engine observation)
+            new += 1
+            path = runner.save_replay(ctx, d["name"] + "fp", [], {"property": ctx.pid, "driver": d["name"], "kind": "footprint", "msg": fp[0]["msg"], "model": fp[0]["model"],
+                                                               "note": "engine observation: a heap cell written while one iterator was advanced was touched while another was advanced"})
+            print("VIOLATION property=%s replay=%s" % (ctx.pid, path))
+            details.append({"driver": d["name"], "failure": {"kind": "footprint", "msg": fp[0]["msg"][:300]}})
+    extra.update({"programs": len(corp.programs), "programs_compiled": len(corp.where), "programs_rejected_by_compiler": len(corp.rejected),
+                  "programs_output_unbuildable": len(corp.unbuildable), "corpus": counts, "compile_s": round(corp.compile_s, 1),
+                  "heap_cells_tracked": sum(d.get("tracked_cells", 0) for d in res["drivers"]), "details": details[:20]})
+    return finish(ctx, res, "model_checking", new, known, replayed, mism, extra,
+                  [PROGRAM_DIM, "goroutines are not modelled: 'do not race' is decided as footprint disjointness on every explored path"],
+                  floors={"drivers_holds": ctx.q(50, 200)})
+
+
+CLAIMED["C14"] = plan_C14
